@@ -63,3 +63,121 @@ fn json_input_matches_mapping_io_error() { json_mapping(1); }
 #[kani::stub(serde_json::Error::is_io, is_io_contract)]
 fn json_input_matches_mapping_syntax_error() { json_mapping(2); }
 
+
+// ---- U-JSN framing: one line per document (C03), writer faults surface (C12) --------------------------
+// (transcode_from cannot be treated the same way: transcode::stream::Error is private to the transcode module, so
+// no stub with transcode()'s signature can be written from here.)
+// The serializer work itself (serde_json::to_writer) is replaced by a stub that writes
+// a marker byte through the serializer's writer and returns Ok or Err: the contract is about what json::Output
+// adds around it.
+
+#[derive(Debug)]
+struct FErr;
+impl std::fmt::Display for FErr { fn fmt(&self, _: &mut std::fmt::Formatter) -> std::fmt::Result { Ok(()) } }
+impl std::error::Error for FErr {}
+impl de::Error for FErr { fn custom<T: std::fmt::Display>(_: T) -> Self { FErr } }
+struct NeverDe;
+impl<'de> de::Deserializer<'de> for NeverDe {
+	type Error = FErr;
+	fn deserialize_any<V: de::Visitor<'de>>(self, _v: V) -> Result<V::Value, FErr> { unreachable!() }
+	serde::forward_to_deserialize_any! {
+		bool i8 i16 i32 i64 i128 u8 u16 u32 u64 u128 f32 f64 char str string
+		bytes byte_buf option unit unit_struct newtype_struct seq tuple
+		tuple_struct map struct enum identifier ignored_any
+	}
+}
+
+// writer log: 'D' = the document body was written, then every byte of the framing text
+static mut WLOG: [u8; 8] = [0; 8];
+static mut WPOS: usize = 0;
+static mut BODY_FAILS: bool = false;
+static mut WRITER_FAILS_AT: usize = 99;
+fn wlog(b: u8) -> io::Result<()> {
+	unsafe {
+		if WPOS >= WRITER_FAILS_AT { return Err(io::ErrorKind::StorageFull.into()); }
+		if WPOS < 8 { WLOG[WPOS] = b; }
+		WPOS += 1;
+		Ok(())
+	}
+}
+struct LogW;
+impl Write for LogW {
+	fn write(&mut self, buf: &[u8]) -> io::Result<usize> { let mut i = 0; while i < buf.len() { wlog(buf[i])?; i += 1; } Ok(buf.len()) }
+	fn write_all(&mut self, buf: &[u8]) -> io::Result<()> { let mut i = 0; while i < buf.len() { wlog(buf[i])?; i += 1; } Ok(()) }
+	fn write_fmt(&mut self, args: std::fmt::Arguments<'_>) -> io::Result<()> {
+		match args.as_str() { Some(s) => self.write_all(s.as_bytes()), None => { assert!(false, "framing text is not a literal"); Ok(()) } }
+	}
+	fn flush(&mut self) -> io::Result<()> { Ok(()) }
+}
+
+fn to_writer_stub<W: Write, T: ?Sized + ser::Serialize>(mut w: W, _value: &T) -> serde_json::Result<()> {
+	if unsafe { BODY_FAILS } { return Err(serde_json::Error::io(io::ErrorKind::InvalidData.into())); }
+	match w.write_all(b"D") { Ok(()) => Ok(()), Err(e) => Err(serde_json::Error::io(e)) }
+}
+
+fn framing_value(body_fails: bool, fail_at: usize) {
+	unsafe { BODY_FAILS = body_fails; WRITER_FAILS_AT = fail_at; }
+	let mut out = Output::new(LogW);
+	let r = crate::Output::transcode_value(&mut out, 7u8);
+	let ok = r.is_ok();
+	std::mem::forget(r);
+	unsafe {
+		if body_fails { assert!(!ok && WPOS == 0, "a failed document must not be framed"); }
+		else if fail_at >= 2 { assert!(ok); assert!(WPOS == 2 && WLOG[0] == b'D' && WLOG[1] == b'\n', "JSON output is the document followed by exactly one newline"); }
+		else { assert!(!ok, "a writer fault was swallowed"); assert!(WPOS == fail_at); }
+	}
+}
+#[kani::proof]
+#[kani::unwind(4)]
+#[kani::stub(serde_json::to_writer, to_writer_stub)]
+fn json_output_value_framing_ok() { framing_value(false, 99); }
+#[kani::proof]
+#[kani::unwind(4)]
+#[kani::stub(serde_json::to_writer, to_writer_stub)]
+fn json_output_value_framing_body_fails() { framing_value(true, 99); }
+#[kani::proof]
+#[kani::unwind(4)]
+#[kani::stub(serde_json::to_writer, to_writer_stub)]
+fn json_output_value_framing_newline_write_fails() { framing_value(false, 1); }
+
+
+// ---- transcode_from through the REAL transcoder and the REAL serde_json serializer, for documents whose
+// serialization is a single literal write (null / true / false) ------------------------------------------
+struct OneEventDe { kind: u8 }
+impl<'de> de::Deserializer<'de> for OneEventDe {
+	type Error = FErr;
+	fn deserialize_any<V: de::Visitor<'de>>(self, v: V) -> Result<V::Value, FErr> {
+		match self.kind { 0 => Err(FErr), 1 => v.visit_unit(), 2 => v.visit_bool(true), _ => v.visit_bool(false) }
+	}
+	serde::forward_to_deserialize_any! {
+		bool i8 i16 i32 i64 i128 u8 u16 u32 u64 u128 f32 f64 char str string
+		bytes byte_buf option unit unit_struct newtype_struct seq tuple
+		tuple_struct map struct enum identifier ignored_any
+	}
+}
+fn from_document(kind: u8, fail_at: usize, expect: &[u8]) {
+	unsafe { WRITER_FAILS_AT = fail_at; }
+	let mut out = Output::new(LogW);
+	let r = crate::Output::transcode_from(&mut out, OneEventDe { kind });
+	let ok = r.is_ok();
+	std::mem::forget(r);
+	unsafe {
+		if kind == 0 { assert!(!ok && WPOS == 0, "a failed document must not be framed"); return; }
+		if fail_at >= expect.len() {
+			assert!(ok && WPOS == expect.len());
+			let mut i = 0; while i < expect.len() { assert!(WLOG[i] == expect[i], "JSON output is the document followed by exactly one newline"); i += 1; }
+		} else { assert!(!ok, "a writer fault was swallowed"); assert!(WPOS == fail_at, "bytes accepted by a failing writer are a prefix of the fault-free output"); }
+	}
+}
+#[kani::proof]
+#[kani::unwind(8)]
+fn json_output_from_null_document_is_one_line() { from_document(1, 99, b"null\n"); }
+#[kani::proof]
+#[kani::unwind(8)]
+fn json_output_from_true_document_is_one_line() { from_document(2, 99, b"true\n"); }
+#[kani::proof]
+#[kani::unwind(8)]
+fn json_output_from_failed_document_not_framed() { from_document(0, 99, b""); }
+#[kani::proof]
+#[kani::unwind(8)]
+fn json_output_from_writer_fault_at_newline() { from_document(1, 4, b"null\n"); }
